@@ -9,7 +9,7 @@ From V.c04 Require Import C04MfraModel C04MfraProofs.
 From V.c04 Require Import C04TreeModel C04TreeProofs.
 From V.c04 Require Import C04TreeXModel C04TreeXProofs.
 From V.c04 Require Import C04XrefModel C04XrefProofs.
-From V.c04 Require Import C04InfoModel C04InfoProofs.
+From V.c04 Require Import C04InfoModel C04InfoProofs C04InfoSencProofs.
 Open Scope N_scope.
 
 (* ---- (a) bits.FixedSliceReader: every method, every reachable state, under the caller guards ---- *)
@@ -566,12 +566,20 @@ Theorem C04_info_decoded_total : forall sr bs st bt toks, state_of_box sr bs = S
 Proof. exact info_decoded_total. Qed.
 Print Assumptions C04_info_decoded_total.
 
-(* a senc parsed by the second pass: the relations of ibox_wf are CHECKED by senc_parsed_state on the state computed from
-   senc_parse (a failing check is a correspondence mismatch of the X stream), not derived from parseAndFillSamples *)
-Theorem C04_info_senc_parsed_partial : forall fl cnt raw iv st level, senc_parsed_state fl cnt raw iv = Some st ->
-  exists n, info_lines st level = Ok n /\ n <= isize st + 1030.
-Proof. intros fl cnt raw iv st level H. exact (info_total st level (senc_parsed_state_wf fl cnt raw iv st H)). Qed.
-Print Assumptions C04_info_senc_parsed_partial.
+(* a senc parsed by the second pass (C04XrefModel.parse_read_senc_x -> senc_parse): the state ParseReadBox leaves - perSampleIVSize
+   given, inferred, or the first of 0 / 8 / 16 that parses; one IV per sample when it is > 0; one SubSamples entry per sample with
+   the counts read by parseAndFillSamples; the data consumed exactly - satisfies the relations (derived from senc_fill_loop by
+   induction: C04InfoSencProofs), so Info prints it at every level *)
+Theorem C04_info_senc_parsed_total : forall fl cnt raw iv nivs nsub al it level,
+  senc_parse fl cnt raw iv = Ok (true, nivs, nsub, al, it) ->
+  exists st, senc_parsed_state fl cnt raw iv = Some st /\ ibox_wf st = true /\
+             exists n, info_lines st level = Ok n /\ n <= isize st + 1030.
+Proof.
+  intros fl cnt raw iv nivs nsub al it level H.
+  destruct (senc_parsed_state_defined fl cnt raw iv nivs nsub al it H) as (st & E & W).
+  exists st. split; [exact E|]. split; [exact W|]. exact (info_total st level W).
+Qed.
+Print Assumptions C04_info_senc_parsed_total.
 
 (* without the relations (API-built boxes with parallel slices of different lengths) the loops index out of range at
    level >= 1 and print at level 0; for stts exactly when SampleTimeDelta is the shorter slice *)
